@@ -716,7 +716,7 @@ func min(a, b int) int {
 func main() {
 	seed := flag.Uint64("seed", 1, "seed")
 	cases := flag.Int("cases", 200, "number of generated cases")
-	focus := flag.String("focus", "c04", "c04 | c12")
+	focus := flag.String("focus", "c04", "c04 | c12 | c06")
 	big := flag.Int("big", 2, "number of big-tree cases (c12)")
 	out := flag.String("out", "-", "result file")
 	replay := flag.String("replay", "", "replay file (one line per op)")
@@ -731,6 +731,12 @@ func main() {
 		run = runCaseC12
 		gen = func(r *hlib.Rng, res *hlib.Result, i int) []string { return genCaseC12(r, res, i, *big) }
 		res.Rule = "C12: trees (empty, single leaf, prefix chains incl. deeper than maxProofDepth, random pools, thousands of keys), chunk sizes 1 B .. larger than the tree, chunker threads 0 and 1..32; real CreateCheckpoint chunk files decoded (snappy+cbor) and compared with the model's chunk entry lists; restore into empty badger and pathbadger databases in shuffled order with duplicates, aborts/restarts and single-chunk corruptions; determinism under GOMAXPROCS 1..16. Non-trivial: non-empty tree with more than one chunk; distinct by case lines."
+	}
+
+	if *focus == "c06" {
+		run = runCaseC06
+		gen = genCaseC06
+		res.Rule = "C06 (restore): a destination database with 1..3 local finalized versions whose contents are variations of the checkpointed tree (shared leaves and subtrees), a checkpoint of a LATER version restored through the multipart path in a shuffled chunk order and finalized, then the local versions pruned one by one, a successor committed on the restored root and the restored version pruned; after every step every finalized, unpruned root must read back with exactly its contents; badger and pathbadger, on disk and in memory. Non-trivial: non-empty tree; distinct by case lines."
 	}
 
 	sigSeen := map[string]int{}
